@@ -183,8 +183,10 @@ def gen_expr_call(rng, env, use, others, cls, depth):
             args.append(("new", t, []) if t else ("lit", "0"))
     if r < 0.25:
         return ("call", None, name, args)                       # implicit receiver
-    if r < 0.33:
+    if r < 0.31:
         return ("call", ("this",), name, args)                   # this.m()
+    if r < 0.33:
+        return ("call", ("super",), name, args)                  # super.m()
     if r < 0.7 and names(env):
         v = rng.choice(names(env))
         return ("call", ("name", v), name, args, {"recvVar": v, "recvType": env[v]})   # field / parameter / local
